@@ -2,7 +2,7 @@
 import re
 
 from qv.facts import callee_name, const_int, const_name, is_place
-from qv import paths, effects, panics
+from qv import paths, effects, panics, origins
 from qv.bounds import Analyzer, lin, add, le, lt, fmt
 from qv.rulelib import HANDLE_MESSAGE, HMWC, HANDLE_QUERY, HANDLE_NON_AXFR, W
 from rules import e5, namewire, c14, c15, c18, c05, c02, writer_inv
@@ -173,6 +173,39 @@ def unit_counter(F, fn, b):
                 stores = [st for blk in fn.blocks if not blk['cleanup'] for st in blk['stmts'] if st['k'] == 'assign' and st['lhs']['p'] and fn.canon(st['lhs'])['l'] == 1 and [q for q in fn.canon(st['lhs'])['p'] if isinstance(q, dict) and 'f' in q][:1] == fld[:1]]
                 ok = init0 and not cap['p'] and len(stores) == 1 and parent.local_ty(cap['l']) in ('usize', 'i32')
         return ok, 'a counter of the enclosing function that starts at 0 and is incremented by 1 per element of an in-memory collection, through a closure'
+    if is_place(o) and one and '{closure' in fn.gpath and not fn.canon(o['pl'])['p'] and 2 <= fn.canon(o['pl'])['l'] <= fn.argc:
+        # `acc + 1` on the accumulator parameter of a closure handed to fold / try_fold with initial value 0: the
+        # accumulator is at most the number of elements folded so far
+        acc = fn.canon(o['pl'])['l']
+        parent = F.fns.get(fn.gpath.split('::{closure')[0])
+        okp = False
+        if parent is not None and fn.local_ty(acc) in ('usize', 'i32'):
+            for pb, pt in parent.calls():
+                n = callee_name(pt)
+                if not (n.endswith('Iterator::try_fold') or n.endswith('Iterator::fold')) or len(pt['args']) < 3:
+                    continue
+                init, f = pt['args'][1], pt['args'][2]
+                is0 = init['k'] == 'const' and const_int(init) == 0
+                isme = is_place(f) and any(lf[0] == 'rv' and lf[3].get('k') == 'agg' and lf[3].get('def') == fn.gpath for lf in origins.trace(parent, f['pl']['l'], []))
+                okp = okp or (is0 and isme)
+        # every accumulator value the closure hands back is acc or acc + 1
+        steps = True
+        for path in ([('down', 'Ok'), ('f', 0)], []):
+            lv = origins.trace(fn, 0, path)
+            if not lv or any(lf[0] == 'unknown' for lf in lv):
+                continue
+            for lf in lv:
+                if lf[0] == 'param' and lf[1] == acc:
+                    continue
+                if lf[0] == 'rv' and lf[3].get('k') == 'bin' and lf[3]['op'].startswith('Add') and is_place(lf[3]['a']) and fn.canon(lf[3]['a']['pl'])['l'] == acc and const_int(lf[3]['b']) == 1:
+                    continue
+                if lf[0] == 'rv' and lf[3].get('k') == 'use' and is_place(lf[3]['op']) and fn.canon(lf[3]['op']['pl'])['l'] == acc:
+                    continue
+                steps = False
+            break
+        else:
+            steps = False
+        return okp and steps, 'the accumulator of a fold / try_fold that starts at 0 and grows by at most 1 per element of an in-memory collection'
     if is_place(o) and one:
         l = fn.canon(o['pl'])['l']
         an = Analyzer(fn, F, e5.make_summary(F))
